@@ -9,6 +9,7 @@ THEOREMS = [
     "Lou.C06Pass.fwdAction_replaces_brackets", "Lou.C06Pass.fwdStage_contract", "Lou.C06Pass.fwdStage_total",
             "Lou.C06Pass.backTest_bounds", "Lou.C06Pass.backStage_contract", "Lou.C06Pass.backStage_total", "Lou.C06Pass.backAction_replaces_brackets",
             "Lou.ModelEngine.callFwd_eq", "Lou.ModelEngine.callBack_eq",
+            "Lou.ModelEngine.engineFor_ok", "Lou.FwdCOK.translateC_contract", "Lou.FwdCOK.actionC_ok",
 ]
 
 CLAIM = dict(
@@ -171,6 +172,10 @@ def layer_b(v, exe, rng, tier, dist):
                 tags.append(("call", c, op, R))
             for pr in R["passes"]:
                 if pr["pass"] == 1:
+                    # the main pass as a stage: F0 + context rules (LouModel/ForwardCtx.lean), forward direction
+                    if not pr["dir"] and c.id.startswith("c06-lb"):
+                        lines.append("MFWD %s %s %d - %s" % (c.meta["tn"], op.split(" ")[2], pr["max"], common.wide(pr["in"])))
+                        tags.append(("main", c, op, pr))
                     continue
                 lines.append("MPASS %s %s %d %d %s" % (c.meta["tn"], "b" if pr["dir"] else "f", pr["pass"], pr["max"], common.wide(pr["in"])))
                 tags.append((c, op, pr))
@@ -190,6 +195,19 @@ def layer_b(v, exe, rng, tier, dist):
                                 "its test starts with at the position it is tried, a rule sits in the chain of another stage, or a "
                                 "chain is not ordered by decreasing key length then definition" % what,
                                 {"script": tg[1].setup + [tg[1].ops[0]], "table_text": tg[1].meta.get("text", "")[:2000], "finding": m[:400]})
+            continue
+        if tg[0] == "main":
+            _, c, op, pr = tg
+            if m.startswith("UNSUPPORTED") or m == "BADOP":
+                n["main_unsupported"] = n.get("main_unsupported", 0) + 1
+                continue
+            n["main_stages_compared"] = n.get("main_stages_compared", 0) + 1
+            v.cov["evaluations"] += 1
+            exp = "P %s %s %d" % (common.wide(pr["out"]), ",".join(str(x) for x in pr["map"]) or ".", pr["realInlen"])
+            got = " ".join(m.split(" ")[:4])
+            if exp != got:
+                bad.append("main pass with context rules, %s (capacity %d, input %s)\n impl  %s\n model %s\n%s" % (
+                    op[:80], pr["max"], common.wide(pr["in"]), exp[:300], m[:300], c.meta["text"][:600]))
             continue
         if tg[0] == "call":
             # the whole call from the model alone (driver model + main-pass model + stage models; nothing from the trace)
